@@ -90,6 +90,8 @@ func (o Op) String() string {
 		return fmt.Sprintf("chmod %s %o", o.P, o.N)
 	case "chown", "chtimes":
 		return fmt.Sprintf("%s %s", o.K, o.P)
+	case "chtimesz":
+		return fmt.Sprintf("chtimes(times in zone +01:45) %s", o.P)
 	case "openw":
 		return fmt.Sprintf("openw %s flags=%s %s", o.P, FlagString(o.N), strconv.Quote(o.C))
 	}
@@ -197,7 +199,7 @@ func ExecModel(m *model.FS, o Op) string {
 		return m.Chmod(o.P, uint32(o.N))
 	case "chown":
 		return m.Chown(o.P, ChownUID, ChownGID)
-	case "chtimes":
+	case "chtimes", "chtimesz":
 		return m.Chtimes(o.P, T1.UnixNano(), T2.UnixNano())
 	case "openw":
 		// OpenFile(flags) + Write(C) (if C != "" ) + Close
@@ -361,6 +363,11 @@ func ExecImpl(s *rig.Stack, o Op) error {
 		return fsys.Chown(o.P, ChownUID, ChownGID)
 	case "chtimes":
 		return fsys.Chtimes(o.P, T1, T2)
+	case "chtimesz":
+		// the same instants, carried by time values in a zone without an alphabetic abbreviation (what time.Parse of an
+		// RFC 3339 string with a numeric offset yields, and what time.Now() yields on hosts in such a zone)
+		z := time.FixedZone("", 3600+45*60)
+		return fsys.Chtimes(o.P, T1.In(z), T2.In(z))
 	case "symlink":
 		if l, ok := fsys.(afero.Linker); ok {
 			return l.SymlinkIfPossible(o.P, o.Q)
